@@ -225,8 +225,15 @@ func GenCase16(r *lib.RNG) Case16 {
 		}
 		for _, f := range fields {
 			col := f.name
-			if r.Chance(1, 4) {
-				col = "c_" + f.name
+			switch r.Intn(8) {
+			case 0, 1:
+				col = "c_" + f.name // renamed (a trace field then lives in a column without the trace_ prefix)
+			case 2:
+				if !strings.HasPrefix(f.name, "trace_") {
+					// a NON-trace field stored in a column called trace_...: the mode follows the field name
+					col = "trace_" + f.name
+					feat["trace-named-column"] = true
+				}
 			}
 			before := len(ig.Block)
 			addBD(f.name, col)
